@@ -173,8 +173,8 @@ def mutate(rng, d):
                 del st["End"]
             else:
                 st["End"] = True
-    except (IndexError, KeyError, TypeError):
-        kind = "none"
+    except (IndexError, KeyError, TypeError, AttributeError, ValueError):
+        kind = "none"      # (the mutation does not apply to this - possibly already mutated - definition)
     return kind, d
 
 
